@@ -72,6 +72,31 @@ func (a Lin) Scale(k int64) Lin { return Lin{}.Add(a, k) }
 
 func (a Lin) IsConst() bool { return len(a.T) == 0 }
 
+// Subst replaces the single atom of `atom` (a form consisting of exactly one atom with
+// coefficient 1) by the form `by`.
+func (a Lin) Subst(atom, by Lin) Lin {
+	if len(atom.T) != 1 || atom.C != 0 {
+		return a
+	}
+	for t, c := range atom.T {
+		if c != 1 {
+			return a
+		}
+		k, ok := a.T[t]
+		if !ok {
+			return a
+		}
+		out := LinConst(a.C)
+		for u, cu := range a.T {
+			if u != t {
+				out = out.Add(LinTerm(u), cu)
+			}
+		}
+		return out.Add(by, k)
+	}
+	return a
+}
+
 func (a Lin) Equal(b Lin) bool {
 	d := a.Add(b, -1)
 	return d.IsConst() && d.C == 0
@@ -169,6 +194,8 @@ type Bounds struct {
 	fieldW     map[string]map[*ssa.Function]bool // "pkg.Type.field" -> writers
 	reachMemo  map[*ssa.Function]map[*ssa.Function]bool
 	factsMemo  map[factsKey][]Fact
+	loopMemo   map[factsKey][]Fact
+	allMemo    map[factsKey][]Fact
 	domFacts   map[*ssa.Function]bool
 	PureCalls  func(callee *ssa.Function) bool // calls whose result may be identified by (callee, args)
 	// Axioms yields trusted facts about the result of a call (rule-supplied, documented there).
@@ -191,7 +218,7 @@ type Bounds struct {
 func NewBounds(p *Prog) *Bounds {
 	b := &Bounds{P: p, Flow: NewFlow(p), sums: map[*ssa.Function]*Summary{}, inProg: map[*ssa.Function]bool{},
 		callers: map[*ssa.Function][]*ssa.Call{}, valueUse: map[*ssa.Function]int{}, fieldW: map[string]map[*ssa.Function]bool{},
-		reachMemo: map[*ssa.Function]map[*ssa.Function]bool{}, factsMemo: map[factsKey][]Fact{}, MaxReqHops: 5, Stats: map[string]int{}}
+		reachMemo: map[*ssa.Function]map[*ssa.Function]bool{}, factsMemo: map[factsKey][]Fact{}, loopMemo: map[factsKey][]Fact{}, allMemo: map[factsKey][]Fact{}, MaxReqHops: 5, Stats: map[string]int{}}
 	for _, fn := range p.RepoFns {
 		for _, blk := range fn.Blocks {
 			for _, in := range blk.Instrs {
@@ -1121,7 +1148,179 @@ type factsKey struct {
 	env string
 }
 
+// blockFacts: the facts of blockFactsRaw plus the induction invariants of every loop whose header
+// is blk or dominates it.
 func (b *Bounds) blockFacts(blk *ssa.BasicBlock) []Fact {
+	mk := factsKey{blk, b.envKey[blk.Parent()]}
+	if f, ok := b.allMemo[mk]; ok {
+		return f
+	}
+	facts := b.blockFactsRaw(blk)
+	if _, done := b.factsMemo[mk]; !done || b.factsMemo[mk] == nil && len(facts) == 0 {
+		// raw facts still being computed (re-entrant request): do not cache
+		return facts
+	}
+	defer func() { b.allMemo[mk] = facts }()
+	copied := false
+	for _, h := range blk.Parent().Blocks {
+		if (h == blk || h.Dominates(blk)) && isLoopHeader(h) {
+			if inv := b.loopInvariants(h); len(inv) > 0 {
+				if !copied {
+					facts = append([]Fact{}, facts...)
+					copied = true
+				}
+				facts = append(facts, inv...)
+			}
+		}
+	}
+	return facts
+}
+
+// rawFactsAt: FactsAt without loop invariants (used while the invariants are being derived).
+func (b *Bounds) rawFactsAt(blk *ssa.BasicBlock, idx int) []Fact {
+	facts := append([]Fact{}, b.blockFactsRaw(blk)...)
+	for i := 0; i < idx && i < len(blk.Instrs); i++ {
+		if c, ok := blk.Instrs[i].(*ssa.Call); ok {
+			facts = append(facts, b.callFacts(c, blk, true)...)
+		}
+	}
+	return facts
+}
+
+// loopBodyOf: the natural loop of header h (blocks that reach a back edge without passing h).
+func loopBodyOf(h *ssa.BasicBlock) map[*ssa.BasicBlock]bool {
+	body := map[*ssa.BasicBlock]bool{h: true}
+	var work []*ssa.BasicBlock
+	for _, p := range h.Preds {
+		if h.Dominates(p) {
+			work = append(work, p)
+		}
+	}
+	for len(work) > 0 {
+		x := work[len(work)-1]
+		work = work[:len(work)-1]
+		if body[x] {
+			continue
+		}
+		body[x] = true
+		work = append(work, x.Preds...)
+	}
+	return body
+}
+
+// termLoopInvariant: the atom is defined outside the loop body (its value cannot change from one
+// iteration to the next).
+func termLoopInvariant(t Term, body map[*ssa.BasicBlock]bool) bool {
+	if v, ok := t.K.(ssa.Value); ok {
+		switch x := v.(type) {
+		case *ssa.Parameter, *ssa.Const, *ssa.Global, *ssa.FreeVar:
+			return true
+		case ssa.Instruction:
+			return !body[x.Block()]
+		}
+		return false
+	}
+	return TermDefinedOutside(t, body)
+}
+
+// loopInvariants derives induction invariants for the phis of loop header h. With e the value a
+// phi p has when the loop is entered and d its increment along a back edge, bounded by constants
+// lo <= d <= hi at the latch:
+//   - lo >= 0 gives p - e >= 0 (hi <= 0 gives e - p >= 0);
+//   - for a counter q (increment exactly s > 0 on every back edge, entry value f):
+//     s*(p-e) - lo*(q-f) >= 0 and hi*(q-f) - s*(p-e) >= 0.
+// Each holds on entry (both sides are zero) and is preserved by every back edge, hence whenever
+// control is in a block the header dominates. p may be an integer or the length of a slice/string.
+func (b *Bounds) loopInvariants(h *ssa.BasicBlock) []Fact {
+	mk := factsKey{h, b.envKey[h.Parent()]}
+	if f, ok := b.loopMemo[mk]; ok {
+		return f
+	}
+	b.loopMemo[mk] = nil
+	body := loopBodyOf(h)
+	type ind struct {
+		val, entry Lin
+		lo, hi     int64
+	}
+	var inds []ind
+	for _, in := range h.Instrs {
+		phi, ok := in.(*ssa.Phi)
+		if !ok {
+			break
+		}
+		var valOf func(ssa.Value) Lin
+		if bt, isB := phi.Type().Underlying().(*types.Basic); isB && bt.Info()&types.IsInteger != 0 {
+			valOf = b.LinOf
+		} else if isSeq(phi.Type()) {
+			valOf = b.LenOf
+		} else {
+			continue
+		}
+		me := valOf(phi)
+		if len(me.T) != 1 || me.C != 0 {
+			continue
+		}
+		x := ind{val: me, lo: PosInf, hi: NegInf}
+		haveEntry, ok2 := false, true
+		for i, e := range phi.Edges {
+			pred := h.Preds[i]
+			if !body[pred] {
+				ev := valOf(e)
+				for t := range ev.T {
+					if !termLoopInvariant(t, body) {
+						ok2 = false
+					}
+				}
+				if haveEntry && !ev.Equal(x.entry) {
+					ok2 = false
+				}
+				x.entry, haveEntry = ev, true
+				continue
+			}
+			d := valOf(e).Add(me, -1)
+			lo, hi := b.boundsOfLin(d, b.rawFactsAt(pred, len(pred.Instrs)-1))
+			if lo < x.lo {
+				x.lo = lo
+			}
+			if hi > x.hi {
+				x.hi = hi
+			}
+		}
+		if !ok2 || !haveEntry || x.lo > x.hi {
+			continue
+		}
+		inds = append(inds, x)
+	}
+	var out []Fact
+	why := fmt.Sprintf("loop invariant (header block %d)", h.Index)
+	const big = int64(1) << 20
+	for i, p := range inds {
+		dp := p.val.Add(p.entry, -1)
+		if p.lo != NegInf && p.lo >= 0 {
+			out = append(out, Fact{L: dp, Why: why})
+		}
+		if p.hi != PosInf && p.hi <= 0 {
+			out = append(out, Fact{L: dp.Scale(-1), Why: why})
+		}
+		for j, q := range inds {
+			if i == j || q.lo != q.hi || q.lo <= 0 || q.lo > big {
+				continue
+			}
+			s := q.lo
+			dq := q.val.Add(q.entry, -1)
+			if p.lo != NegInf && abs64(p.lo) < big {
+				out = append(out, Fact{L: dp.Scale(s).Add(dq, -p.lo), Why: why})
+			}
+			if p.hi != PosInf && abs64(p.hi) < big {
+				out = append(out, Fact{L: dq.Scale(p.hi).Add(dp, -s), Why: why})
+			}
+		}
+	}
+	b.loopMemo[mk] = out
+	return out
+}
+
+func (b *Bounds) blockFactsRaw(blk *ssa.BasicBlock) []Fact {
 	mk := factsKey{blk, b.envKey[blk.Parent()]}
 	if f, ok := b.factsMemo[mk]; ok {
 		return f
@@ -1164,6 +1363,11 @@ func (b *Bounds) blockFacts(blk *ssa.BasicBlock) []Fact {
 
 // callFacts instantiates the callee's summary for the call, as seen from block `at`.
 func (b *Bounds) callFacts(c *ssa.Call, at *ssa.BasicBlock, sameBlock bool) []Fact {
+	// n := copy(dst, src): 0 <= n <= len(dst), n <= len(src)
+	if bi, ok := c.Call.Value.(*ssa.Builtin); ok && bi.Name() == "copy" && len(c.Call.Args) == 2 {
+		n := LinTerm(Term{K: callRes{c, 0}})
+		return []Fact{{L: n, Why: "copy result"}, {L: b.LenOf(c.Call.Args[0]).Add(n, -1), Why: "copy result"}, {L: b.LenOf(c.Call.Args[1]).Add(n, -1), Why: "copy result"}}
+	}
 	callee := c.Call.StaticCallee()
 	if callee == nil || !InLib(callee) || len(callee.Blocks) == 0 {
 		return nil
@@ -1515,7 +1719,62 @@ func (b *Bounds) Prove(goal Lin, facts []Fact) bool {
 	return fm(goal, pool, 0, map[string]bool{})
 }
 
+// relevantPool keeps the facts connected to the goal through shared atoms (transitively); the
+// others cannot take part in a derivation of the goal.
+func relevantPool(goal Lin, pool []Lin) []Lin {
+	if len(pool) < 8 {
+		return pool
+	}
+	reach := map[Term]bool{}
+	for t := range goal.T {
+		reach[t] = true
+	}
+	used := make([]bool, len(pool))
+	for changed := true; changed; {
+		changed = false
+		for i, f := range pool {
+			if used[i] {
+				continue
+			}
+			hit := false
+			for t := range f.T {
+				if reach[t] {
+					hit = true
+					break
+				}
+			}
+			if hit {
+				used[i] = true
+				changed = true
+				for t := range f.T {
+					reach[t] = true
+				}
+			}
+		}
+	}
+	out := make([]Lin, 0, len(pool))
+	for i, f := range pool {
+		if used[i] {
+			out = append(out, f)
+		}
+	}
+	return out
+}
+
+type fmState struct {
+	seen   map[string]bool
+	failed map[string]int // goal -> smallest depth at which the search for it failed
+}
+
 func fm(goal Lin, pool []Lin, depth int, seen map[string]bool) bool {
+	if goal.IsConst() {
+		return goal.C >= 0
+	}
+	st := &fmState{seen: seen, failed: map[string]int{}}
+	return st.run(goal, relevantPool(goal, pool), depth)
+}
+
+func (st *fmState) run(goal Lin, pool []Lin, depth int) bool {
 	if goal.IsConst() {
 		return goal.C >= 0
 	}
@@ -1523,11 +1782,24 @@ func fm(goal Lin, pool []Lin, depth int, seen map[string]bool) bool {
 		return false
 	}
 	key := goal.String()
-	if seen[key] {
+	if st.seen[key] {
 		return false
 	}
-	seen[key] = true
-	defer delete(seen, key)
+	if d, ok := st.failed[key]; ok && d <= depth {
+		return false
+	}
+	st.seen[key] = true
+	defer delete(st.seen, key)
+	ok := st.step(goal, pool, depth)
+	if !ok {
+		if d, had := st.failed[key]; !had || depth < d {
+			st.failed[key] = depth
+		}
+	}
+	return ok
+}
+
+func (st *fmState) step(goal Lin, pool []Lin, depth int) bool {
 	// choose an atom and eliminate it with a fact of the right sign
 	// (deterministic order: by rendering)
 	var terms []Term
@@ -1551,7 +1823,7 @@ func fm(goal Lin, pool []Lin, depth int, seen map[string]bool) bool {
 			if len(ng.T) > len(goal.T)+2 {
 				continue
 			}
-			if fm(ng, pool, depth+1, seen) {
+			if st.run(ng, pool, depth+1) {
 				return true
 			}
 		}
@@ -1756,6 +2028,20 @@ func (b *Bounds) SummaryFor(fn *ssa.Function, consts map[int]int64) *Summary {
 				if sl, ok := toSlots(fn, form, nil); ok {
 					addCand(rt.Add(sl, -1))
 					addCand(sl.Add(rt, -1))
+				} else {
+					// the result depends on quantities local to fn: bound it from below and above by
+					// forms over the parameters, using the facts of this way of returning
+					for _, lower := range []bool{true, false} {
+						if scale, bd, ok := b.boundForm(fn, form, cx.facts, lower); ok {
+							if sl, ok := toSlots(fn, bd, nil); ok {
+								if lower {
+									addCand(rt.Scale(scale).Add(sl, -1))
+								} else {
+									addCand(sl.Add(rt, -scale))
+								}
+							}
+						}
+					}
 				}
 				// a result that is a single atom can stand for the result slot inside guard facts
 				if len(form.T) == 1 && form.C == 0 {
@@ -1987,6 +2273,27 @@ func (b *Bounds) boundsOfLin(l Lin, facts []Fact) (lo, hi int64) {
 	return
 }
 
+// PointeeLenOfResult: the atom for the length of the sequence that result idx of call c points to.
+func (b *Bounds) PointeeLenOfResult(c *ssa.Call, idx int) Lin {
+	return LinTerm(Term{K: fieldKey{Base: callRes{c, idx}, Path: ".*"}, Len: true})
+}
+
+// LowerBound: the largest constant c the engine can show with l - c >= 0 under the facts (interval
+// bound first, then a search over small constants).
+func (b *Bounds) LowerBound(l Lin, facts []Fact) (int64, bool) {
+	lo, _ := b.boundsOfLin(l, facts)
+	best, ok := lo, lo != NegInf
+	for c := int64(16); c >= 1; c-- {
+		if ok && c <= best {
+			break
+		}
+		if b.Prove(l.Add(LinConst(c), -1), facts) {
+			return c, true
+		}
+	}
+	return best, ok
+}
+
 // pathCtx: facts that hold on one way of reaching a return, with the values the phis of the
 // blocks on that way take.
 type pathCtx struct {
@@ -2013,6 +2320,19 @@ func (cx pathCtx) apply(l Lin) Lin {
 		}
 	}
 	return l
+}
+
+// applyOnce substitutes simultaneously, once (a back-edge value of a loop phi mentions the phi).
+func (cx pathCtx) applyOnce(l Lin) Lin {
+	out := LinConst(l.C)
+	for t, k := range l.T {
+		if sub, ok := cx.subst[t]; ok {
+			out = out.Add(sub, k)
+		} else {
+			out = out.Add(LinTerm(t), k)
+		}
+	}
+	return out
 }
 
 func isLoopHeader(blk *ssa.BasicBlock) bool {
@@ -2181,6 +2501,30 @@ func phiOfGoal(goal Lin, facts []Fact, tried map[*ssa.Phi]bool) (*ssa.Phi, bool)
 	return best, best != nil
 }
 
+// loopHeaderOfGoal: the innermost loop header that is blk or dominates it and one of whose phis
+// occurs in the goal.
+func loopHeaderOfGoal(goal Lin, blk *ssa.BasicBlock) *ssa.BasicBlock {
+	var best *ssa.BasicBlock
+	for t := range goal.T {
+		v, ok := t.K.(ssa.Value)
+		if !ok {
+			continue
+		}
+		phi, ok := v.(*ssa.Phi)
+		if !ok || !isLoopHeader(phi.Block()) {
+			continue
+		}
+		h := phi.Block()
+		if h != blk && !h.Dominates(blk) {
+			continue
+		}
+		if best == nil || best.Dominates(h) {
+			best = h
+		}
+	}
+	return best
+}
+
 func (b *Bounds) proveAt(blk *ssa.BasicBlock, idx int, goal Lin, extra []Fact, hops, splits int, seen map[string]bool) Proof {
 	fn := blk.Parent()
 	facts := append(append([]Fact{}, b.FactsAt(blk, idx)...), extra...)
@@ -2220,6 +2564,44 @@ func (b *Bounds) proveAt(blk *ssa.BasicBlock, idx int, goal Lin, extra []Fact, h
 			return Proof{OK: true, How: "local"}
 		}
 		return Proof{Trail: trail}
+	}
+	// induction over a loop: the goal mentions phis of a loop header that dominates this point and
+	// otherwise only quantities that do not change inside the loop; it holds here if it holds on
+	// entry and every back edge re-establishes it from the hypothesis
+	if splits < 4 {
+		if h := loopHeaderOfGoal(goal, blk); h != nil {
+			body := loopBodyOf(h)
+			inductive := true
+			for t := range goal.T {
+				if v, ok := t.K.(ssa.Value); ok {
+					if phi, ok := v.(*ssa.Phi); ok && phi.Block() == h {
+						continue
+					}
+				}
+				if !termLoopInvariant(t, body) {
+					inductive = false
+				}
+			}
+			if inductive {
+				all := true
+				for i, pred := range h.Preds {
+					sub := map[Term]Lin{}
+					b.phiSubst(h, i, sub)
+					cx := pathCtx{subst: sub}
+					ex := b.edgeFacts(pred, h)
+					if body[pred] {
+						ex = append(ex, Fact{L: goal, Why: "induction hypothesis"})
+					}
+					if pr := b.proveAt(pred, len(pred.Instrs)-1, cx.applyOnce(goal), ex, hops, splits+1, seen); !pr.OK {
+						all = false
+						break
+					}
+				}
+				if all {
+					return Proof{OK: true, How: "local"}
+				}
+			}
+		}
 	}
 	// several ways into the block: the goal may hold for a different reason on each
 	if idx >= 0 && len(blk.Preds) >= 2 && len(blk.Preds) <= 6 && !isLoopHeader(blk) && splits < 4 {
@@ -2283,6 +2665,76 @@ func (b *Bounds) proveAt(blk *ssa.BasicBlock, idx int, goal Lin, extra []Fact, h
 		}
 	}
 	return Proof{OK: true, How: fmt.Sprintf("callers(%d)", hops+1)}
+}
+
+// boundForm bounds scale*form from below (lower) or above by a form over fn's parameters: atoms
+// that are local to fn are cancelled against facts (or their type range) that mention them.
+// lower: scale*form - bound is a non-negative combination of facts; upper: bound - scale*form is.
+func (b *Bounds) boundForm(fn *ssa.Function, form Lin, facts []Fact, lower bool) (int64, Lin, bool) {
+	isLocal := func(t Term) bool {
+		_, ok := toSlots(fn, LinTerm(t), nil)
+		return !ok
+	}
+	cur, scale := form, int64(1)
+	for round := 0; round < 4; round++ {
+		var local *Term
+		for t := range cur.T {
+			if isLocal(t) {
+				tt := t
+				if local == nil || termString(tt) < termString(*local) {
+					local = &tt
+				}
+			}
+		}
+		if local == nil {
+			return scale, cur, true
+		}
+		c := cur.T[*local]
+		pool := append([]Fact{}, facts...)
+		if lo, hi := b.typeBounds(*local); true {
+			if lo != NegInf {
+				pool = append(pool, Fact{L: LinTerm(*local).Add(LinConst(lo), -1)})
+			}
+			if hi != PosInf {
+				pool = append(pool, Fact{L: LinConst(hi).Add(LinTerm(*local), -1)})
+			}
+		}
+		done := false
+		for _, f := range pool {
+			if f.Neq {
+				continue
+			}
+			d := f.L.T[*local]
+			if d == 0 || (lower && (d > 0) != (c > 0)) || (!lower && (d > 0) == (c > 0)) {
+				continue
+			}
+			ad, ac := abs64(d), abs64(c)
+			if ad > 1<<16 || ac > 1<<16 || scale > 1<<16 {
+				continue
+			}
+			var next Lin
+			if lower {
+				next = cur.Scale(ad).Add(f.L, -ac)
+			} else {
+				next = cur.Scale(ad).Add(f.L, ac)
+			}
+			intro := false
+			for t := range next.T {
+				if _, had := cur.T[t]; !had && isLocal(t) {
+					intro = true
+				}
+			}
+			if intro {
+				continue
+			}
+			cur, scale, done = next, scale*ad, true
+			break
+		}
+		if !done {
+			return 0, Lin{}, false
+		}
+	}
+	return 0, Lin{}, false
 }
 
 // eliminateLocals removes the atoms of goal that are not parameters of fn by combining it with
